@@ -117,7 +117,66 @@ func memberMatches(params fieldParameters, tal tagAndLen) bool {
 	if params.tagNumber == nil {
 		return tal.class == ClassUniversal
 	}
-	return *params.tagNumber == tal.tagNumber
+	return tal.class == ClassContextSpecific && *params.tagNumber == tal.tagNumber
+}
+
+// checkIdentifier reports an element whose identifier octets do not fit the
+// type it is decoded into: a tagged element carries its context tag, an
+// untagged one the universal tag of its type. The alternatives of an untagged
+// CHOICE and the "Value"/"List" wrappers are checked where they are decoded.
+func checkIdentifier(v reflect.Value, params fieldParameters, tal tagAndLen) error {
+	if params.tagNumber != nil {
+		if tal.class != ClassContextSpecific || tal.tagNumber != *params.tagNumber {
+			return fmt.Errorf("tag mismatch: expected context tag %d, got class %d tag %d",
+				*params.tagNumber, tal.class, tal.tagNumber)
+		}
+		return nil
+	}
+	var want uint64
+	switch v.Type() {
+	case BitStringType:
+		want = TagBitString
+	case OctetStringType:
+		want = TagOctetString
+	case EnumeratedType:
+		want = TagEnumerated
+	case NullType:
+		want = TagNull
+	case ObjectIdentifierType:
+		return nil
+	default:
+		switch v.Kind() {
+		case reflect.Bool:
+			want = TagBoolean
+		case reflect.Int, reflect.Int32, reflect.Int64:
+			want = TagInteger
+		case reflect.String:
+			want = uint64(params.stringType)
+		case reflect.Struct:
+			if v.NumField() > 0 {
+				switch v.Type().Field(0).Name {
+				case "Value", "List", "Present":
+					return nil
+				}
+			}
+			want = TagSequence
+			if params.set {
+				want = TagSet
+			}
+		case reflect.Slice:
+			want = TagSequence
+			if params.set {
+				want = TagSet
+			}
+		default:
+			return nil
+		}
+	}
+	if tal.class != ClassUniversal || tal.tagNumber != want {
+		return fmt.Errorf("type mismatch: expected universal tag %d, got class %d tag %d",
+			want, tal.class, tal.tagNumber)
+	}
+	return nil
 }
 
 // ParseField is the main parsing function. Given a byte slice containing type value,
@@ -142,6 +201,9 @@ func ParseField(v reflect.Value, bytes []byte, params fieldParameters) error {
 	}
 	// the element ends after tal.len contents octets
 	bytes = bytes[:int64(talOff)+tal.len]
+	if err = checkIdentifier(v, params, tal); err != nil {
+		return err
+	}
 
 	// EXPLICIT tag: the contents are the complete encoding of the underlying type.
 	if params.tagNumber != nil && params.explicitTag {
